@@ -564,3 +564,90 @@ pub fn scn_chars(scn: &Value) -> Value {
     }).collect();
     json!({"now": scn["now"], "ckeys": scn["ckeys"], "docs": docs, "dirs": scn["dirs"], "cwd": arts(&scn["cwd"])})
 }
+
+/// Random abstract scenario for the pipeline, beyond the bounds of the MC_* instances
+/// (up to 3 steps, 4 functionary keys per step, every file state, sub-layouts, rule chains).
+pub fn random_scn(rng: &mut impl rand::Rng) -> Value {
+    let keys = ["k1", "k2", "k3", "kx"];
+    let other = |k: &str| if k == "k1" { "k2" } else { "k1" };
+    let good = |k: &str| json!({"kid": k, "by": k, "ok": true});
+    let bad = |k: &str| json!({"kid": k, "by": k, "ok": false});
+    let arts = |v: u32| -> Value {
+        match v % 3 {
+            0 => json!([{"p": "a", "d": "h1"}]),
+            1 => json!([{"p": "a", "d": "h1"}, {"p": "evil", "d": "h2"}]),
+            _ => json!([{"p": "a", "d": "h2"}]),
+        }
+    };
+    let simple = |k: &str, pat: &str| json!({"k": k, "pat": pat, "src": "", "dst": "", "with": "P", "from": ""});
+    let nsteps = rng.gen_range(1..=3);
+    let mut steps = vec![];
+    let mut docs: Vec<Value> = vec![Value::Null];
+    let mut dirs: std::collections::BTreeMap<Vec<String>, Vec<Value>> = std::collections::BTreeMap::new();
+    dirs.insert(vec![], vec![]);
+    let table: Vec<&str> = ["k1", "k2", "k3"].iter().filter(|_| rng.gen_bool(0.95)).cloned().collect();
+    for s in 0..nsteps {
+        let name = format!("s{}", s + 1);
+        let pubkeys: Vec<&str> = keys.iter().filter(|_| rng.gen_bool(0.75)).cloned().collect();
+        let thr = [0, 1, 1, 1, 1, 2, 2, 3][rng.gen_range(0..8)];
+        let mut em = vec![];
+        if s > 0 && rng.gen_bool(0.5) {
+            em.push(json!({"k": "MATCH", "pat": "a", "src": "", "dst": "", "with": "P", "from": format!("s{}", s)}));
+        }
+        em.push(simple("ALLOW", "*"));
+        let ep = match rng.gen_range(0..8) {
+            0 => vec![simple("DISALLOW", "evil"), simple("ALLOW", "*")],
+            1 => vec![simple("CREATE", "a"), simple("DISALLOW", "*")],
+            2 => vec![simple("REQUIRE", "a"), simple("ALLOW", "*")],
+            _ => vec![simple("ALLOW", "*")],
+        };
+        steps.push(json!({"name": name, "pubkeys": pubkeys, "thr": thr, "em": em, "ep": ep}));
+        // the agreed content of this step (most links use it, some dissent)
+        let base_variant: u32 = rng.gen_range(0..3);
+        for k in keys {
+            if !rng.gen_bool(0.7) {
+                continue;
+            }
+            let variant = if rng.gen_bool(0.9) { base_variant } else { rng.gen_range(0..3) };
+            let link = |sigs: Value, edit: &str| json!({"typ": "link", "sigs": sigs, "edit": edit, "name": name, "mats": [], "prods": arts(variant),
+                                                        "cmd": format!("c.{name}"), "byp": format!("b.{name}")});
+            let st = rng.gen_range(0..20);
+            let doc = match st {
+                0..=12 => link(json!([good(k)]), "none"),
+                13 => link(json!([bad(k)]), "none"),
+                14 => link(json!([good(other(k))]), "none"),
+                15 => link(json!([{"kid": k, "by": other(k), "ok": true}]), "none"),
+                16 => link(json!([good(other(k)), good(k)]), "none"),
+                17 => link(json!([bad(k), good(other(k))]), "none"),
+                18 => link(json!([good(k)]), "product"),
+                _ => {
+                    // a sub-layout delegated to by k with one inner step done by k3
+                    let expired = rng.gen_bool(0.2);
+                    let inner_ok = rng.gen_bool(0.8);
+                    let sub = json!({"typ": "layout", "sigs": [good(k)], "edit": "none", "expires": if expired { -5 } else { 1000 }, "fmt": "Z",
+                        "keys": ["k3"], "steps": [{"name": "in1", "pubkeys": ["k3"], "thr": 1, "em": [], "ep": [simple("ALLOW", "*")]}], "inspect": []});
+                    let inner = json!({"typ": "link", "sigs": [if inner_ok { good("k3") } else { bad("k3") }], "edit": "none", "name": "in1",
+                        "mats": [], "prods": arts(variant), "cmd": "c.in1", "byp": "b.in1"});
+                    docs.push(inner);
+                    let idx = docs.len();
+                    dirs.entry(vec![format!("{name}.{k}")]).or_default().push(json!({"step": "in1", "fkey": "k3", "doc": idx}));
+                    sub
+                }
+            };
+            docs.push(doc);
+            let idx = docs.len();
+            dirs.get_mut(&vec![]).unwrap().push(json!({"step": name, "fkey": k, "doc": idx}));
+        }
+    }
+    let lsigs = match rng.gen_range(0..25) {
+        0 => json!([bad("o1")]),
+        1 => json!([]),
+        2 => json!([good("o2")]),
+        _ => json!([good("o1")]),
+    };
+    docs[0] = json!({"typ": "layout", "sigs": lsigs, "edit": if rng.gen_bool(0.05) { "readme" } else { "none" },
+        "expires": if rng.gen_bool(0.07) { -30 } else { 1000 }, "fmt": "Z", "keys": table, "steps": steps, "inspect": []});
+    let ckeys = if rng.gen_bool(0.1) { json!([{"label": "o1", "key": "o1"}, {"label": "o2", "key": "o2"}]) } else { json!([{"label": "o1", "key": "o1"}]) };
+    let dirs_j: Vec<Value> = dirs.into_iter().map(|(p, f)| json!({"path": p, "files": f})).collect();
+    json!({"m": "VERIFY", "prop": "RANDOM", "scn": {"now": 0, "ckeys": ckeys, "docs": docs, "dirs": dirs_j, "cwd": []}})
+}
